@@ -650,6 +650,15 @@ def r10(ctx):
     ctx.floor("C16.R10", 2)
 
 
+def r11(ctx):
+    """"once removed, none of its ... capability can be observed" - also after the store was reopened: the capability-table
+    migrations do not bring a removed document back (002 / 003 evaluated: 003 deletes the version-1 table, and a migration that
+    executed is committed whatever row count it reports, so 002 finds nothing to import on the next open; = C18.R4 / R6)"""
+    from . import C18
+    ctx.share("C16.R11", C18.r4, "C18.R4", keep=lambda k: "commit-iff-Execute" in k, floor=3)
+    if hasattr(C18, "r6"):
+        ctx.share("C16.R11", C18.r6, "C18.R6", floor=1)
+
 def run(ctx):
     ctx.run_rule("C16.R1", r1)
     ctx.run_rule("C16.R2", r2)
@@ -661,3 +670,4 @@ def run(ctx):
     ctx.run_rule("C16.R8", r8)
     ctx.run_rule("C16.R9", r9)
     ctx.run_rule("C16.R10", r10)
+    ctx.run_rule("C16.R11", r11)
